@@ -335,3 +335,13 @@ package typed
 //@   label pooled-reader-starts-clean
 //@   ensures r != nil && r.err == nil && r.reader == reader
 //@   property C18
+
+// lastu16(r): the value the latest ReadUint16 on the pooled reader r returned
+// (volatile ghost: usable until the next call).
+//@ ghostfield lastu16 volatile
+//@ func (r *Reader) ReadUint16() (v uint16)
+//@   nosafety
+//@   modifies all
+//@   defines lastu16(r) == v
+//@   ensures r.reader == old(r.reader)
+//@   property C18
